@@ -485,6 +485,10 @@ func (x *X) specCall(env *SpecEnv, se *SpecExpr, call *ast.CallExpr) Value {
 		return x.specGo(&ne, se, call.Args[0])
 	case "len":
 		v := arg(0)
+		if len(v.C) == 1 && v.C[0].Sort == SBytes {
+			// length of an abstract byte string
+			return scalar(tInt, App("blen", SBV(64), v.C[0]))
+		}
 		return x.lenOf(env.st, v)
 	case "cap":
 		v := arg(0)
@@ -560,6 +564,9 @@ func (x *X) specCall(env *SpecEnv, se *SpecExpr, call *ast.CallExpr) Value {
 		return scalar(specType("KeyT"), App("KRaw", "KeyT", x.bytesOfValue(env.st, arg(0)).S()))
 	case "keyOf":
 		return scalar(specType("KeyT"), App("keyOf", "KeyT", x.bytesOfValue(env.st, arg(0)).S()))
+	case "bcat":
+		// concatenation of two abstract byte strings
+		return scalar(specType("Bytes"), App("bcat", SBytes, x.bytesOfValue(env.st, arg(0)).S(), x.bytesOfValue(env.st, arg(1)).S()))
 	case "u64le", "u32le":
 		// little-endian byte string of an integer: injective (ground instances of the inverse law
 		// are added for every term built, which keeps the queries quantifier-free)
